@@ -305,6 +305,11 @@ class Client:
     def call_raises(self, interp: "Interp", callee: Value, node: ast.AST, st: State) -> List[str]:
         return [ANY_EXC]
 
+    def pre_call_states(self, interp: "Interp", callee: Value, args: Sequence[Value], kwargs: Sequence[Tuple[str, Value]],
+                        node: ast.Call, st: State) -> List[State]:
+        """May fork the state before a non-inlined call (e.g. decide a boolean argument both ways)."""
+        return [st]
+
     def after_call(self, interp: "Interp", callee: Value, args: Sequence[Value], kwargs: Sequence[Tuple[str, Value]],
                    node: ast.Call, st: State) -> State:
         """Effect of a non-inlined call that returned normally (raise outcomes keep the pre-call state)."""
@@ -970,6 +975,9 @@ class Interp:
     def truth(self, v: Value, s: State) -> Optional[bool]:
         if v[0] == "const":
             return bool(v[1])
+        if v[0] == "not":
+            t = self.truth(v[1], s)
+            return None if t is None else (not t)
         if v[0] in ("closure", "func", "cls", "lambda"):
             return True
         if (v, True) in s.facts:
@@ -1460,10 +1468,13 @@ class Interp:
         if fi is not None and len(self.frames) <= self.client.max_inline_depth and self.client.want_inline(fi, self, node):
             gv = ("gen", fi.fq, args, kwargs, recv, captured)
             return self.inline_call(fi, gv, st, out, node)
-        for ex in self.client.call_raises(self, cv, node, st):
-            out.exc.append((ex, st))
-        st = self.client.after_call(self, cv, args, kwargs, node, st)
-        return [(call_v, st)]
+        res = []
+        for st1 in self.client.pre_call_states(self, cv, args, kwargs, node, st):
+            for ex in self.client.call_raises(self, cv, node, st1):
+                out.exc.append((ex, st1))
+            st2 = self.client.after_call(self, cv, args, kwargs, node, st1)
+            res.append((call_v, st2))
+        return res
 
     def inline_call(self, fi: FuncInfo, gv: Value, st: State, out: Outcome, node: ast.AST):
         _, fq, args, kwargs, recv, captured = gv
